@@ -37,17 +37,21 @@ def toOpt {α} (r : R α) : Option α :=
   | .ok a => some a
   | .error _ => none
 
+def consOpt (a : Option Tree) (as : Option (List Tree)) : Option (List Tree) :=
+  match a, as with
+  | some t, some ts => some (t :: ts)
+  | _, _ => none
+
+/-- the tree of the child paint behind the 24-bit offset at `pos` of the paint at `off` -/
+def expectKid (rec : Nat → Option Tree) (b : Array Nat) (off pos : Nat) : Option Tree :=
+  match resolveOff b 3 off pos with
+  | none => none
+  | some c => if !paintOk b c then none else rec c
+
 /-- the expected trees of the child paints at `positions` -/
 def expectKids (rec : Nat → Option Tree) (b : Array Nat) (off : Nat) : List Nat → Option (List Tree)
   | [] => some []
-  | pos :: rest =>
-    match resolveOff b 3 off pos with
-    | none => none
-    | some c =>
-      if !paintOk b c then none
-      else match rec c, expectKids rec b off rest with
-        | some t, some ts => some (t :: ts)
-        | _, _ => none
+  | pos :: rest => consOpt (expectKid rec b off pos) (expectKids rec b off rest)
 
 /-- the expected (renamed) colour line / affine of the paint at `off` -/
 def expectBlob (p : PlanIn) (b : Array Nat) (off : Nat) (spec : Option (Nat × Blob)) : Option (List Nat) :=
@@ -81,10 +85,7 @@ def objKids (rec : Nat → Option Tree) (links : List Link) : List Nat → Optio
   | pos :: rest =>
     match linkAt links pos with
     | none => none
-    | some t =>
-      match rec t, objKids rec links rest with
-      | some tr, some ts => some (tr :: ts)
-      | _, _ => none
+    | some t => consOpt (rec t) (objKids rec links rest)
 
 /-- unfolding of the object graph from object `i` -/
 def objTree (packed : List Obj) : Nat → Nat → Option Tree
